@@ -15,8 +15,8 @@ CHECKS = {
    note="Pairing-based encapsulation/decapsulation algebra and the policy-language parser are not covered; larger formulas outside the bound.",
    ref="§4 C20"),
  "C16": dict(
-   text="DLEQ proofs (zk/dleq) over an abstract group whose scalars are SMT reals: honest proofs verify for every key / randomness / batch (1, 2), altered components are refused unless the transcript hash collides; zk/qndleq: honest proof verifies and degenerate proofs are refused for every challenge value; OPRF Finalize hash input equals the RFC 9497 framing byte for byte (recorder hash) for every mode and input/info/element incl. empty info; NIST-curve scalar decoding is canonical (known finding: values >= N accepted). OPRF finalisation does not modify the stored blinds (finalising twice gives the same outputs). An evaluation whose proof is missing is refused with an error (no panic). Schnorr proofs of knowledge (zk/dl, RFC 8235): honest proofs verify for every witness, base, commitment randomness and context strings (0..2 bytes, 0..5 thorough); a proof with an altered base, statement element, commitment, response, user identifier or other-info string (also a byte moved between the two strings) is refused, under the random-oracle assumptions listed in the evidence.",
-   note="Hash, hash-to-scalar and element encoding are uninterpreted functions; qndleq with a concrete 64-bit modulus; OT (ot/simot) is not covered; Schnorr soundness assumes away the 1/q event that the challenge of a new transcript hits the one value satisfying the verification equation; two known findings are listed in known_findings.json (qndleq security parameter taken from the proof; non-canonical P-curve scalars).",
+   text="DLEQ proofs (zk/dleq) over an abstract group whose scalars are SMT reals: honest proofs verify for every key / randomness / batch (1, 2), altered components are refused unless the transcript hash collides; zk/qndleq: honest proof verifies and degenerate proofs are refused for every challenge value; OPRF Finalize hash input equals the RFC 9497 framing byte for byte (recorder hash) for every mode and input/info/element incl. empty info; NIST-curve scalar decoding is canonical (known finding: values >= N accepted). OPRF finalisation does not modify the stored blinds (finalising twice gives the same outputs). An evaluation whose proof is missing is refused with an error (no panic). Schnorr proofs of knowledge (zk/dl, RFC 8235): honest proofs verify for every witness, base, commitment randomness and context strings (0..2 bytes, 0..5 thorough); a proof with an altered base, statement element, commitment, response, user identifier or other-info string (also a byte moved between the two strings) is refused, under the random-oracle assumptions listed in the evidence; proving leaves the operands unchanged and a second proof from the same key object verifies. 1-out-of-2 oblivious transfer (ot/simot) over the abstract group: for both choice bits, every non-zero randomness and symbolic equal-length messages the receiver obtains exactly the chosen message and the key it derives does not open the other ciphertext.",
+   note="Hash, hash-to-scalar and element encoding are uninterpreted functions; qndleq with a concrete 64-bit modulus; OT: SHAKE128 is a collision-free uninterpreted function and AES-GCM an ideal authenticated box; Schnorr soundness assumes away the 1/q event that the challenge of a new transcript hits the one value satisfying the verification equation; two known findings are listed in known_findings.json (qndleq security parameter taken from the proof; non-canonical P-curve scalars).",
    ref="§4 C16"),
  "C17": dict(
    text="Shamir/Feldman secret sharing (secretsharing + math/polynomial real generic code) over an abstract field (SMT reals, z3 nlsat): t = 1, 2 (3 thorough), every secret / coefficients / distinct non-zero identifiers: t+1 shares recover the secret, t or fewer are refused, dealt shares verify, altered ones do not; threshold RSA: the integer Lagrange coefficient computeLambda is exact (lambda*den == Delta*num) for every set of k distinct players out of l (l=5,k=2,3; l=7,k=4 thorough), decided on the real math/big code with symbolic player indices; computePolynomial = exact integer polynomial (k = 14, player indices up to 30, powers beyond 2^63); CombineSignShares raises exactly the shares it multiplies in to |2*lambda(T,0,j)| of one set T of >= k players (three shares of a (5,2) sharing, arbitrary distinct indices, modular exponentiation recorded). Signing (blinded or not) leaves the share and its cached exponent 2*Delta*s_i unchanged.",
